@@ -1,6 +1,6 @@
 """C06 Results are deterministic across processes, hash seeds and worker schedules."""
 from pyvc.tables import run_gen
-from contracts import c_determinism, c_processing_scheduler, c_fill_transaction
+from contracts import c_determinism, c_processing_scheduler, c_fill_transaction, x_set_order
 
 
 def units():
@@ -10,7 +10,8 @@ def units():
 
 def extra(tier, seed):
     return [run_gen("main.format_files/dispatch", ("C06",), c_determinism.gen_format_files, tier == "thorough"),
-            run_gen("main.format_file/frame", ("C06",), c_determinism.gen_format_file_frame, tier == "thorough")]
+            run_gen("main.format_file/frame", ("C06",), c_determinism.gen_format_file_frame, tier == "thorough"),
+            run_gen("set-order", ("C06",), x_set_order.generate, tier == "thorough")]
 
 
 def standins(tier, seed):
